@@ -947,7 +947,9 @@ func (e *Evaluator) evalStatement(stmt Statement) error {
 			}
 		}
 	case *StatementFor:
-		e.evalExpr(st.PreExpr)
+		if _, err := e.evalExpr(st.PreExpr); err != nil {
+			return err
+		}
 		loopCount := 0
 		for {
 			cell, err := e.evalExpr(st.Expr)
